@@ -414,6 +414,12 @@ def run(ctx):
              "width query (slice taken before or after), and into same-named signals of different widths in several "
              "modules of one exported design: exported bits == the bits the same index selects from the Python list",
         bound="5 targets x 4 queries x 4 resizes x 6 indices x 2 orders + 14 same-name designs", key_of=lambda c: c[0])
+    ctx.run_bounded(
+        "array-shares-of-slices", _c01.array_share_designs(),
+        lambda c: (lambda r: None if r is None else ("array-share/" + r[0], r[1], r[2]))(_c01.check_design(c)),
+        rule="an n-array fed one part per element from a strided / reversed / nested slice or an unaligned concatenation: "
+             "element k gets x[k*w:(k+1)*w] of the connection x as a Python list of bits",
+        bound="11 connections x 4 array shapes", key_of=lambda c: c[0])
     cases = itertools.chain(small_nested(), nested_cases(rnd, 20000 if thorough else 3000))
     ctx.run_bounded(
         "nested-resolution", cases,
